@@ -762,6 +762,10 @@ class X509V3ExtensionsType(_STIXBase20):
         ('policy_mappings', StringProperty()),
     ])
 
+    def _check_object_constraints(self):
+        super(X509V3ExtensionsType, self)._check_object_constraints()
+        self._check_at_least_one_property()
+
 
 class X509Certificate(_Observable):
     """For more detailed information on this object's properties, see
